@@ -31,6 +31,16 @@ def handle : List String → Option String
     | some ja, some jb, some jc, some sel =>
       some (showList (filterLS (lsList ja jb jc (parseOptInt pa) (parseOptInt pb) (parseOptInt pc) (pbk == "1") (parseOptInt ca)) sel))
     | _, _, _, _ => none
+  -- count clause: number of helicity pairs with |λb−λc| ≤ ja (`LS.helCount`, the definition `C13.ls_count_broken_all` is about)
+  | ["hel", ja, jb, jc] =>
+    match ja.toNat?, jb.toNat?, jc.toNat? with
+    | some ja, some jb, some jc => some (toString (helCount ja jb jc))
+    | _, _, _ => none
+  -- number of parity orbits compatible with η = p·(−1)^(ja−jb−jc) (`LS.helCountParity` of `LS.etaOf`, as in `C13.ls_count_parity_all`)
+  | ["help", ja, jb, jc, p] =>
+    match ja.toNat?, jb.toNat?, jc.toNat?, p.toInt? with
+    | some ja, some jb, some jc, some p => some (toString (helCountParity ja jb jc (etaOf ja jb jc p)))
+    | _, _, _, _ => none
   | ws => LS.handle ws
 
 end TfPwaV.LSX
